@@ -501,62 +501,73 @@ static char one_case(const Any& proto, const uint8_t* data, size_t n, bool strea
   return code;
 }
 
+// one child session: runs cases [first, last) with a per-case alarm; returns (index of the case the child died in or N, its code)
+template<typename F> static std::pair<size_t, char> run_session(size_t first, size_t last, size_t N, unsigned alarm_s, F fn, std::string& res) {
+  int pr[2], pe[2];
+  if (pipe(pr) != 0 || pipe(pe) != 0) throw std::runtime_error("pipe");
+  pid_t pid = fork();
+  if (pid < 0) throw std::runtime_error("fork");
+  if (pid == 0) {
+    close(pr[0]); close(pe[0]); dup2(pe[1], 2);
+    for (size_t i = first; i < last; ++i) {
+      char hdr[48]; int l = snprintf(hdr, sizeof hdr, "B%zu\n", i);
+      if (write(pr[1], hdr, l) < 0) _exit(3);
+      alarm(alarm_s);
+      char c = fn(i);
+      alarm(0);
+      l = snprintf(hdr, sizeof hdr, "E%zu %c\n", i, c);
+      if (write(pr[1], hdr, l) < 0) _exit(3);
+    }
+    _exit(0);
+  }
+  close(pr[1]); close(pe[1]);
+  std::string out, err;
+  struct pollfd fds[2] = {{pr[0], POLLIN, 0}, {pe[0], POLLIN, 0}};
+  int open_fds = 2;
+  while (open_fds > 0) {
+    if (poll(fds, 2, -1) < 0) break;
+    for (int k = 0; k < 2; ++k) {
+      if (fds[k].fd < 0) continue;
+      if (fds[k].revents & (POLLIN | POLLHUP | POLLERR)) {
+        char b[4096]; ssize_t r = read(fds[k].fd, b, sizeof b);
+        if (r > 0) { (k == 0 ? out : err).append(b, r); }
+        else { close(fds[k].fd); fds[k].fd = -1; --open_fds; }
+      }
+    }
+  }
+  int status = 0; waitpid(pid, &status, 0);
+  size_t begun = (size_t)-1; bool ended = true;
+  std::istringstream ls(out); std::string line;
+  while (std::getline(ls, line)) {
+    if (line.empty()) continue;
+    if (line[0] == 'B') { begun = strtoull(line.c_str() + 1, nullptr, 10); ended = false; }
+    else if (line[0] == 'E') { char* e; size_t i = strtoull(line.c_str() + 1, &e, 10); if (i < N && *e == ' ') res[i] = e[1]; ended = true; }
+  }
+  if (WIFEXITED(status) && WEXITSTATUS(status) == 0 && ended) return {N, ' '};
+  if (begun == (size_t)-1 || begun >= N) throw std::runtime_error("child died before the first case");
+  char c = 'X';
+  if (err.find("AddressSanitizer") != std::string::npos) c = 'S';
+  else if (err.find("runtime error") != std::string::npos) c = 'U';
+  else if (WIFSIGNALED(status) && WTERMSIG(status) == SIGALRM) c = 'O';
+  if (getenv("VH_VERBOSE")) std::cerr << "case " << begun << " -> " << c << "\n" << err.substr(0, 1500) << "\n";
+  return {begun, c};
+}
+
 template<typename F> static std::string run_cases(size_t N, F fn) {
   std::string res(N, '?');
   size_t next = 0;
   std::cout.flush();
   while (next < N) {
-    int pr[2], pe[2];
-    if (pipe(pr) != 0 || pipe(pe) != 0) throw std::runtime_error("pipe");
-    pid_t pid = fork();
-    if (pid < 0) throw std::runtime_error("fork");
-    if (pid == 0) {
-      close(pr[0]); close(pe[0]); dup2(pe[1], 2);
-      for (size_t i = next; i < N; ++i) {
-        char hdr[48]; int l = snprintf(hdr, sizeof hdr, "B%zu\n", i);
-        if (write(pr[1], hdr, l) < 0) _exit(3);
-        alarm(5);
-        char c = fn(i);
-        alarm(0);
-        l = snprintf(hdr, sizeof hdr, "E%zu %c\n", i, c);
-        if (write(pr[1], hdr, l) < 0) _exit(3);
-      }
-      _exit(0);
+    auto d = run_session(next, N, N, 6, fn, res);
+    if (d.first >= N) break;
+    char c = d.second;
+    if (c == 'O') {
+      // a timeout must be reproducible with a much longer limit (the machine is shared: a slow child is not an endless loop)
+      auto d2 = run_session(d.first, d.first + 1, N, 40, fn, res);
+      c = (d2.first >= N) ? res[d.first] : d2.second;
     }
-    close(pr[1]); close(pe[1]);
-    std::string out, err;
-    struct pollfd fds[2] = {{pr[0], POLLIN, 0}, {pe[0], POLLIN, 0}};
-    int open_fds = 2;
-    while (open_fds > 0) {
-      if (poll(fds, 2, -1) < 0) break;
-      for (int k = 0; k < 2; ++k) {
-        if (fds[k].fd < 0) continue;
-        if (fds[k].revents & (POLLIN | POLLHUP | POLLERR)) {
-          char b[4096]; ssize_t r = read(fds[k].fd, b, sizeof b);
-          if (r > 0) { (k == 0 ? out : err).append(b, r); }
-          else { close(fds[k].fd); fds[k].fd = -1; --open_fds; }
-        }
-      }
-    }
-    int status = 0; waitpid(pid, &status, 0);
-    // parse
-    size_t begun = (size_t)-1; bool ended = true;
-    std::istringstream ls(out); std::string line;
-    while (std::getline(ls, line)) {
-      if (line.empty()) continue;
-      if (line[0] == 'B') { begun = strtoull(line.c_str() + 1, nullptr, 10); ended = false; }
-      else if (line[0] == 'E') { char* e; size_t i = strtoull(line.c_str() + 1, &e, 10); if (i < N && *e == ' ') res[i] = e[1]; ended = true; }
-    }
-    if (WIFEXITED(status) && WEXITSTATUS(status) == 0 && ended) { next = N; break; }
-    // the child died inside case `begun`
-    if (begun == (size_t)-1 || begun >= N) throw std::runtime_error("child died before the first case");
-    char c = 'X';
-    if (err.find("AddressSanitizer") != std::string::npos) c = 'S';
-    else if (err.find("runtime error") != std::string::npos) c = 'U';
-    else if (WIFSIGNALED(status) && WTERMSIG(status) == SIGALRM) c = 'O';
-    if (getenv("VH_VERBOSE")) std::cerr << "case " << begun << " -> " << c << "\n" << err.substr(0, 1500) << "\n";
-    res[begun] = c;
-    next = begun + 1;
+    res[d.first] = c;
+    next = d.first + 1;
   }
   return res;
 }
